@@ -1365,6 +1365,25 @@ class NLargest(ReductionConstantDim):
             return {}
         return {"columns": self._columns}
 
+    def _simplify_up(self, parent, dependents):
+        if isinstance(parent, Projection):
+            if self._columns is None:
+                return plain_column_projection(self, parent, dependents)
+            # The columns the rows are ordered by have to stay available
+            # below the projection, and the frame has to stay a DataFrame
+            columns = determine_column_projection(
+                self, parent, dependents, additional_columns=self._columns
+            )
+            if not isinstance(columns, list):
+                columns = [columns]
+            columns = [col for col in self.frame.columns if col in columns]
+            if columns == self.frame.columns:
+                return
+            return type(parent)(
+                type(self)(self.frame[columns], *self.operands[1:]),
+                *parent.operands[1:],
+            )
+
     @property
     def chunk_kwargs(self):
         return {"n": self.n, **self._columns_kwarg()}
